@@ -475,19 +475,23 @@ Lemma exec_work_case_chain_refuted :
   wcost 2 4096 (case_chain 12) 0 = 8191.
 Proof. vm_compute. repeat split; reflexivity. Qed.
 
-(* a pattern STRING the parser accepts: k groups "(%{|?)" and a byte that does not match.  The parser resets its
-   brace depth at '|' (pattern.rs:375 `depth = sub.depth`) instead of rejecting the '{' left open inside the
-   alternative, so the Push of every group resumes AFTER the group and runs the rest of the pattern, and when
-   that fails the Case runs the second alternative and the rest again: 7 * 2^k - 5 steps for 6k + 2 characters *)
+(* F40 (repaired in 91e76e1; [parse_orig] is the parser as it stood).  A pattern STRING the parser accepted: k groups
+   "(%{|?)" and a byte that does not match.  The parser reset its brace depth at '|' (pattern.rs `depth = sub.depth`)
+   instead of rejecting the '{' left open inside the alternative, so the Push of every group resumes AFTER the group
+   and runs the rest of the pattern, and when that fails the Case runs the second alternative and the rest again:
+   7 * 2^k - 5 steps for 6k + 2 characters.  The repaired parser reports StackError at the first '|'. *)
 Definition brace_text (k : nat) : list N := rep k [40; 37; 123; 124; 63; 41] ++ [48; 49].
-Definition brace_pat (k : nat) : list atom := match parse (brace_text k) with Ok (inr p) => p | _ => [] end.
+Definition brace_pat (k : nat) : list atom := match parse_orig (brace_text k) with Ok (inr p) => p | _ => [] end.
 Lemma exec_work_unbalanced_brace_refuted :
-  parse (brace_text 10) = Ok (inr (brace_pat 10)) /\ parse (brace_text 12) = Ok (inr (brace_pat 12)) /\
+  parse_orig (brace_text 10) = Ok (inr (brace_pat 10)) /\ parse_orig (brace_text 12) = Ok (inr (brace_pat 12)) /\
   no_many (brace_pat 10) = true /\ no_many (brace_pat 12) = true /\ lenN (brace_pat 10) = 62 /\ lenN (brace_pat 12) = 74 /\
   cases_nested (brace_pat 10) = false /\ cases_nested (brace_pat 12) = false /\
   run_exec_steps (scan_of_view zero_view) (brace_pat 10) 256 [0] = Ok (false, [256], 7163) /\
   run_exec_steps (scan_of_view zero_view) (brace_pat 12) 256 [0] = Ok (false, [256], 28667).
 Proof. vm_compute. repeat split; reflexivity. Qed.
+Lemma unbalanced_brace_rejected :
+  parse (brace_text 10) = Ok (inl (StackError, 3%nat)) /\ parse (brace_text 12) = Ok (inl (StackError, 3%nat)).
+Proof. vm_compute. split; reflexivity. Qed.
 
 (* the nesting check accepts what the parser produces for the documented syntax (examples; the general
    statement for every compiled AST is open) *)
